@@ -66,7 +66,7 @@ def rand_csel():
     return rand_slice(4)
 buckets = collections.defaultdict(list)
 N=0
-for it in range(60000):
+for it in range(int(__import__("os").environ.get("RECON_N", 60000))):
     rows = rand_rows()
     rsel = rand_rsel(len(rows)); csel = rand_csel()
     if isinstance(rsel, list) and len(rsel)==0 and len(rows)==0 : pass
